@@ -187,3 +187,21 @@ Proof.
   split; [eexists; vm_compute; reflexivity|]. vm_compute. reflexivity.
 Qed.
 Print Assumptions C19_hypotheses_inhabited.
+
+(** ------------------------------------------------------------------
+    Components carry the OPTIONAL / DEFAULT status WRITTEN on them (Compile/MemberAttrs.v), in every environment, at
+    every depth: two components with the same identifier that refer to the same named type ("twins") are independent.
+    harness/c19_twins.py compares [attrs_of (flatten ..)] with the attributes of the objects all eight codecs compile. *)
+From Asn1V Require Compile.MemberAttrs.
+
+Theorem C19_unfold_components_as_written : ltac:(let T := type of Asn1V.Compile.MemberAttrs.unfold_components_as_written in exact T).
+Proof. exact Asn1V.Compile.MemberAttrs.unfold_components_as_written. Qed.
+Print Assumptions C19_unfold_components_as_written.
+
+Theorem C19_compile_components_as_written : ltac:(let T := type of Asn1V.Compile.MemberAttrs.compile_components_as_written in exact T).
+Proof. exact Asn1V.Compile.MemberAttrs.compile_components_as_written. Qed.
+Print Assumptions C19_compile_components_as_written.
+
+Theorem C19_twin_components_independent : ltac:(let T := type of Asn1V.Compile.MemberAttrs.twin_components_independent in exact T).
+Proof. exact Asn1V.Compile.MemberAttrs.twin_components_independent. Qed.
+Print Assumptions C19_twin_components_independent.
